@@ -74,8 +74,21 @@ Definition val_eqb (a b : val) : option bool :=
   | _, _ => Some false
   end.
 
+(* conversions that compute under cbn on literals *)
+Fixpoint pos_nat (p : positive) : nat :=
+  match p with
+  | xH => 1%nat
+  | xO q => (2 * pos_nat q)%nat
+  | xI q => S (2 * pos_nat q)
+  end.
+Definition z2nat (z : Z) : nat := match z with Zpos p => pos_nat p | _ => O end.
+Definition n2nat (n : N) : nat := match n with Npos p => pos_nat p | N0 => O end.
+
 Definition nth1 (l : list val) (i : Z) : val :=
-  if i <=? 0 then VNil else nth (Z.to_nat (i - 1)) l VNil.
+  match i with
+  | Zpos p => nth (pred (pos_nat p)) l VNil
+  | _ => VNil
+  end.
 
 Definition to_str_arg (v : val) : option str :=
   match v with
@@ -163,7 +176,7 @@ Definition opt_count (rest : list str) : option (option nat) :=
   match rest with
   | [] => Some None
   | [c; n] => if str_eqb c "COUNT" then
-                match tonum n with Some k => Some (Some (N.to_nat k)) | None => None end
+                match tonum n with Some k => Some (Some (n2nat k)) | None => None end
               else None
   | _ => None
   end.
@@ -522,7 +535,7 @@ Fixpoint loop (body : val -> val -> env -> node -> sres) (items : list val) (idx
 (* lo, lo+step, ... <= hi  for step > 0 *)
 Definition zrange (lo hi step : Z) : list Z :=
   if hi <? lo then []
-  else map (fun k => lo + step * Z.of_nat k) (seq 0 (Z.to_nat ((hi - lo) / step + 1))).
+  else map (fun k => lo + step * Z.of_nat k) (seq 0 (z2nat ((hi - lo) / step + 1))).
 
 Fixpoint exec_stmt (s : stmt) (en : env) (nd : node) {struct s} : sres :=
   match s with
